@@ -1,5 +1,10 @@
 package hgen
 
+import (
+	"fmt"
+	"strings"
+)
+
 // C15: JSON round trips. encoding/json itself is environment (modelled by contract in the executor); what is
 // executed for real is fp.Option's and fp.Unit's MarshalJSON/UnmarshalJSON and the MarshalJSON/UnmarshalJSON that
 // gombok generates for @fp.Json structs.
@@ -398,7 +403,35 @@ func VH_c15_tagged_and_nested() {
 }
 `
 
+// wideJson is program j2: @fp.Json structs at and beyond the widest tuple/HList arity the library has
+// (max.Product = 22, so AsTuple/FromTuple/AsLabelled stop being generated): the codec is generated all the same
+// and has to carry every field.
+func wideJson() Program {
+	var ty, hn strings.Builder
+	ty.WriteString("package j2\n\nimport (\n\t\"encoding/json\"\n\n\t\"github.com/csgura/fp\"\n)\n\n//go:generate gombok\n\nvar _ json.Marshaler\nvar _ fp.Unit\n")
+	hn.WriteString("package j2\n\nimport (\n\tzz \"scratchmod/zzverif\"\n)\n")
+	for _, n := range []int{21, 22, 24} {
+		name := fmt.Sprintf("Wide%d", n)
+		fmt.Fprintf(&ty, "\n// @fp.Value\n// @fp.Json\ntype %s struct {\n", name)
+		for i := 1; i <= n; i++ {
+			fmt.Fprintf(&ty, "\tf%02d int\n", i)
+		}
+		ty.WriteString("}\n")
+		fmt.Fprintf(&hn, "\nfunc VH_c15_wide_struct_%d() {\n\tx := %s{", n, name)
+		for i := 1; i <= n; i++ {
+			fmt.Fprintf(&hn, "f%02d: zz.Int(\"x.f%02d\"), ", i, i)
+		}
+		hn.WriteString("}\n\tb, err := x.MarshalJSON()\n")
+		fmt.Fprintf(&hn, "\tvar y %s\n\terr2 := y.UnmarshalJSON(b)\n\tzz.Assert(err == nil && err2 == nil, \"%d-field @fp.Json struct: Marshal and Unmarshal succeed\")\n", name, n)
+		for i := 1; i <= n; i++ {
+			fmt.Fprintf(&hn, "\tzz.Assert(y.f%02d == x.f%02d, \"%d-field @fp.Json struct: Unmarshal(Marshal(x)) = x, field f%02d\")\n", i, i, n, i)
+		}
+		hn.WriteString("}\n")
+	}
+	return Program{Pkg: "j2", Files: map[string][]byte{"types.go": []byte(ty.String())}, Harness: map[string][]byte{"zz_verif_harness.go": []byte(hn.String())}, Desc: "@fp.Json structs of 21, 22 and 24 fields"}
+}
+
 // JsonPrograms returns the scratch programs of C15.
 func JsonPrograms(tier string, seed int) []Program {
-	return []Program{{Pkg: "j1", Files: map[string][]byte{"types.go": []byte(jsonTypes)}, Harness: map[string][]byte{"zz_verif_harness.go": []byte(jsonHarness)}, Desc: "@fp.Json structs, Option, Unit"}}
+	return []Program{{Pkg: "j1", Files: map[string][]byte{"types.go": []byte(jsonTypes)}, Harness: map[string][]byte{"zz_verif_harness.go": []byte(jsonHarness)}, Desc: "@fp.Json structs, Option, Unit"}, wideJson()}
 }
